@@ -132,6 +132,34 @@ def log_templates(f):
     return [(t, n) for t, n, _ in out]
 
 
+def _eval_on(obj, node):
+    """value of a small expression of the handler's code on a live handler: a literal, self.<attr>, len(<expr>)"""
+    if isinstance(node, ast.Constant):
+        return node.value
+    if isinstance(node, ast.Attribute) and isinstance(node.value, ast.Name) and node.value.id == "self":
+        return getattr(obj, node.attr)
+    if isinstance(node, ast.Call) and isinstance(node.func, ast.Name) and node.func.id == "len" and len(node.args) == 1 and not node.keywords:
+        return len(_eval_on(obj, node.args[0]))
+    raise ValueError("cannot evaluate %s" % ast.unparse(node))
+
+
+def _state_attrs(f):
+    """names of the attributes of self that f assigns, augments or mutates through a method call statement"""
+    out = []
+    for node in ast.walk(f):
+        tgts = []
+        if isinstance(node, ast.Assign):
+            tgts = node.targets
+        elif isinstance(node, (ast.AugAssign, ast.AnnAssign)):
+            tgts = [node.target]
+        elif isinstance(node, ast.Expr) and isinstance(node.value, ast.Call) and isinstance(node.value.func, ast.Attribute):
+            tgts = [node.value.func.value]          # self.<attr>.append(...) / .clear() / .extend(...)
+        for t in tgts:
+            if isinstance(t, ast.Attribute) and isinstance(t.value, ast.Name) and t.value.id == "self":
+                out.append(t.attr)
+    return out
+
+
 def generate(outdir):
     import scrapli.logging as sl
     from scrapli.channel import async_channel, base_channel, sync_channel
@@ -177,26 +205,51 @@ def generate(outdir):
     for name, val in [("id", h.message_id), ("time", h.asctime), ("level", h.levelname), ("target", h.target),
                       ("module", h.module), ("func", h.funcName), ("lineno", h.lineno), ("message", h.message)]:
         lines.append("Definition gen_h_%s : str := %s." % (name, cstr(val)))
-    # 4. handler constants
+    # 4. handler constants.  The names of the handler's attributes are DISCOVERED from the code that uses them (what emit()
+    # tests the message against, where it cuts the payload, which attributes emit / emit_buffered write), never assumed:
+    # a renamed or restructured buffer with the same behaviour regenerates the same definitions.
+    em = _func(tree, "ScrapliFileHandler", "emit")
+    eb = _func(tree, "ScrapliFileHandler", "emit_buffered")
     with tempfile.TemporaryDirectory() as d:
-        fh = sl.ScrapliFileHandler(os.path.join(d, "x.log"), mode="w", delay=True)
-        prefix, plen = fh._read_msg_prefix, fh._read_msg_prefix_len
-        if fh._record_buf is not None or fh._record_msg_buf != b"":
-            raise ValueError("handler initial state changed")
+        probe_path = os.path.join(d, "x.log")
+        fh = sl.ScrapliFileHandler(probe_path, mode="w", delay=True)
+        prefixes = set(_eval_on(fh, n.args[0]) for n in ast.walk(em)
+                       if isinstance(n, ast.Call) and isinstance(n.func, ast.Attribute) and n.func.attr == "startswith" and len(n.args) == 1)
+        if len(prefixes) != 1 or not isinstance(next(iter(prefixes)), str):
+            raise ValueError("emit: cannot find the one prefix the message is tested against: %r" % (prefixes,))
+        prefix = next(iter(prefixes))
+        cuts = set(_eval_on(fh, n.lower) for n in ast.walk(em)
+                   if isinstance(n, ast.Slice) and n.lower is not None and n.upper is None and n.step is None)
+        if len(cuts) != 1:
+            raise ValueError("emit: cannot find where the payload is cut out of the message: %r" % (cuts,))
+        plen = next(iter(cuts))
+        state = sorted(set(_state_attrs(em)) | set(_state_attrs(eb)))
+        if not state:
+            raise ValueError("handler keeps no state between emits")
+        for a in state:         # a fresh handler has nothing pending, whatever the buffer is made of
+            v = getattr(fh, a)
+            if v is not None and not (isinstance(v, (bytes, bytearray, str, list, tuple)) and len(v) == 0):
+                raise ValueError("handler initial state changed: %s = %r" % (a, v))
         fh.close()
-    if not isinstance(plen, int) or plen < 0 or plen > 100:
+        if os.path.exists(probe_path):
+            raise ValueError("a fresh (delayed) handler wrote something at close")
+    info["handler_state_attrs"] = state
+    if not isinstance(plen, int) or isinstance(plen, bool) or plen < 0 or plen > 100:
         raise ValueError("prefix length %r" % (plen,))
     lines.append("Definition gen_read_prefix : str := %s." % cstr(prefix))
     lines.append("Definition gen_read_prefix_len : nat := %d%%nat." % plen)
-    eb = _func(tree, "ScrapliFileHandler", "emit_buffered")
-    joined = [n for n in ast.walk(eb) if isinstance(n, ast.JoinedStr)]
+    # the coalesced message: <record>.msg = f"<literal>{<the buffered payload, whatever it is called>!r}"
     outs = []
-    for j in joined:
-        vals = j.values
-        if (len(vals) == 2 and isinstance(vals[0], ast.Constant) and isinstance(vals[1], ast.FormattedValue)
-                and vals[1].conversion == 114 and ast.unparse(vals[1].value) == "self._record_msg_buf"
-                and vals[1].format_spec is None):
+    for node in ast.walk(eb):
+        if not (isinstance(node, ast.Assign) and len(node.targets) == 1 and isinstance(node.targets[0], ast.Attribute)
+                and node.targets[0].attr == "msg" and isinstance(node.value, ast.JoinedStr)):
+            continue
+        vals = node.value.values
+        if (len(vals) == 2 and isinstance(vals[0], ast.Constant) and isinstance(vals[0].value, str)
+                and isinstance(vals[1], ast.FormattedValue) and vals[1].conversion == 114 and vals[1].format_spec is None):
             outs.append(vals[0].value)
+        else:
+            raise ValueError("emit_buffered: unexpected shape of the coalesced message: %s" % ast.unparse(node))
     if len(outs) != 1:
         raise ValueError("emit_buffered: cannot find the f-string building the coalesced message")
     lines.append("Definition gen_read_out : str := %s." % cstr(outs[0]))
